@@ -5,6 +5,7 @@
 import TaRs.Lemmas.Core.MeanAbsoluteDeviation
 import TaRs.Gen.MeanAbsoluteDeviation
 import TaRs.Lemmas.RsLemmas
+import TaRs.Lemmas.Total.MeanAbsoluteDeviation
 namespace TaRs.Gen.MeanAbsoluteDeviation
 open TaRs TaRs.Rs
 
@@ -46,18 +47,5 @@ theorem next_eq (s : MeanAbsoluteDeviation F) (x v : F) (h : WF s) (hv : s.deque
     simp (disch := first | omega | (simp only [Array.size_setIfInBounds]; omega)) only
       [slice_eq, Option.bind_eq_bind, Option.bind_some, Option.pure_def]
   all_goals (first | omega | (subst hv; rfl))
-
-/-- `next` never panics on a well-formed state, keeps it well-formed and keeps the period. -/
-theorem next_total (s : MeanAbsoluteDeviation F) (x : F) (h : WF s) :
-    ∃ r, s.next x = some r ∧ WF r.1 ∧ r.1.period = s.period := by
-  have hix : s.index < s.deque.size := by have := h.size; have := h.idx; omega
-  refine ⟨_, next_eq s x _ h (Array.getElem?_eq_getElem hix), ?_, rfl⟩
-  obtain ⟨hp, hs, hsz, hi, hc⟩ := h
-  constructor <;> simp only [Array.size_setIfInBounds] <;> (try split) <;> omega
-
-theorem nextBar_eq (s : MeanAbsoluteDeviation F) (b : Bar F) : s.nextBar b = s.next b.close := by
-  unfold nextBar
-  try simp only [gen_helper]
-  cases h : s.next b.close <;> simp
 
 end TaRs.Gen.MeanAbsoluteDeviation
